@@ -25,6 +25,8 @@ let run () =
   let names : n list list ref = ref [] in
   let text = ref [] and texthex = ref "" in
   let ms : (int * int * r list) list ref = ref [] in
+  let cur_s : n list ref = ref [] in
+  let occ_tbl : (string * string, (int * int) list option) Hashtbl.t = Hashtbl.create 16 in
   let amatches () = List.map (fun (s, e, caps) -> { am_range = (nat_of_int s, nat_of_int e); am_caps = List.map conv_r caps; am_names = !names }) (List.rev !ms) in
   let mm what detail = incr mism; Printf.printf "MISMATCH stage=api case=%s pat=%s flags=%s hay=%s what=%s detail=%s\n" !id !pat !flags !texthex what detail in
   let viol prop detail = incr pviol; Printf.printf "PROPVIOL prop=%s case=%s pat=%s flags=%s hay=%s start=0 detail=%s\n" prop !id !pat !flags !texthex detail in
@@ -104,9 +106,38 @@ let run () =
       if am = [] && outp <> !texthex then viol "C17" (Printf.sprintf "%s:no-match-but-text-changed" kind)
     | "S" :: s :: esc :: _ ->
       incr cases; incr checks;
-      let model = escape (uncps s) in
+      cur_s := uncps s; pat := s; Hashtbl.reset occ_tbl;
+      let model = escape !cur_s in
       if model <> uncps esc then (incr mism; Printf.printf "MISMATCH stage=escape s=%s impl=%s\n" s esc);
-      if uncps s <> [] then incr nontrivial
+      (* shape: dropping each backslash that precedes a character gives s back *)
+      let rec unesc l = (match l with
+        | a :: b :: t when int_of_n a = 92 -> b :: unesc t
+        | a :: t -> a :: unesc t
+        | [] -> []) in
+      if unesc (uncps esc) <> !cur_s then viol "C18" "escape-changed-characters";
+      if !cur_s <> [] then incr nontrivial
+    | "F" :: fl :: ok :: _ ->
+      incr checks; flags := fl;
+      if ok <> "1" then viol "C18" (Printf.sprintf "escape(s)-does-not-compile-under-flags=%s" fl)
+    | "O" :: fl :: thex :: rest ->
+      incr checks; flags := fl; texthex := thex;
+      let has c = String.contains fl c in
+      let icase = has 'i' and unicode = has 'u' in
+      let impl = (match rest with
+        | ["PANIC"] -> None
+        | cnt :: r -> let rec go k l = if k = 0 then [] else (match l with a :: b :: t -> (ios a, ios b) :: go (k - 1) t | _ -> failwith "O") in Some (go (ios cnt) r)
+        | [] -> failwith "O") in
+      let model = (match drv_lit_occ icase unicode !cur_s (unhex thex) with
+        | Some l -> Some (List.map (fun (a, b) -> (int_of_nat a, int_of_nat b)) l)
+        | None -> None) in
+      let show = function None -> "PANIC" | Some l -> String.concat ";" (List.map (fun (a, b) -> Printf.sprintf "%d-%d" a b) l) in
+      if impl <> model then viol "C18" (Printf.sprintf "matches=%s,literal-occurrences=%s" (show impl) (show model));
+      if not icase then Hashtbl.replace occ_tbl (fl, thex) impl
+    | "X" :: thex :: cnt :: r ->
+      incr checks; texthex := thex;
+      let rec go k l = if k = 0 then [] else (match l with a :: b :: t -> (ios a, ios b) :: go (k - 1) t | _ -> failwith "X") in
+      let oracle = Some (go (ios cnt) r) in
+      Hashtbl.iter (fun (fl, th) impl -> if th = thex && impl <> oracle then begin flags := fl; viol "C18" "matches<>str::match_indices" end) occ_tbl
     | ["E"] | [] -> ()
     | _ -> failwith ("bad line: " ^ line)
   done with End_of_file -> ());
